@@ -328,8 +328,7 @@ func (g *pure2Gen) rangeExpr() *aspgen.Expr {
 	case 0:
 		return aspgen.E(call("range", pos(aspgen.IntE(r.Range(0, 3))), pos(aspgen.IntE(r.Range(2, 9)))))
 	case 1:
-		// with a step that does not divide stop - start pyRange.Len() is smaller than the number of items: the shared evaluator
-		// model refuses a comprehension over it (append would grow the array), so do the reference run and the theorem
+		// a step that does not divide stop - start: pyRange.Len() rounds up since /repo 3ce4752
 		g.note("range-step")
 		return aspgen.E(call("range", pos(aspgen.IntE(r.Range(0, 3))), pos(aspgen.IntE(r.Range(2, 12))), pos(aspgen.IntE(r.Range(1, 3)))))
 	case 2:
@@ -655,4 +654,28 @@ func Pure2Program(r *lib.Rng) (aspgen.Prog, map[string]int) {
 		g.out = append(g.out, g.stmt2()...)
 	}
 	return g.out, g.used
+}
+
+// RangeLenRegressions: comprehensions and loops over ranges whose Len() the old formula (Stop - Start) / Step got wrong.
+func RangeLenRegressions() []aspgen.Prog {
+	rng := func(args ...int) *aspgen.Expr {
+		as := []aspgen.Arg{}
+		for _, a := range args {
+			as = append(as, pos(aspgen.IntE(a)))
+		}
+		return aspgen.E(call("range", as...))
+	}
+	x := aspgen.IdE("x")
+	var out []aspgen.Prog
+	for _, r := range [][]int{{3, 2}, {1, 3, 3}, {5, 0}, {0, 10, 3}, {2, 3, 7}, {0, 0}, {4, 4, 2}, {0, 7, 2}, {9, 1, 2}} {
+		out = append(out, aspgen.Prog{
+			aspgen.Assign("l", aspgen.E(aspgen.Comp(x, []string{"x"}, rng(r...), nil))),
+			aspgen.Assign("m", aspgen.E(aspgen.Comp(aspgen.E(aspgen.Ident("x"), aspgen.Bin("*", aspgen.Int(5))), []string{"x"}, rng(r...),
+				aspgen.E(aspgen.Ident("x"), aspgen.Bin("!=", aspgen.Int(1)))))),
+			aspgen.Assign("n", aspgen.E(call("len", pos(aspgen.IdE("l"))))),
+			aspgen.Assign("t", aspgen.IntE(0)),
+			aspgen.For([]string{"x"}, rng(r...), aspgen.Aug("t", x)),
+		})
+	}
+	return out
 }
